@@ -32,6 +32,7 @@ PROPERTY = "C05"
 LEVEL = "exploration"
 SHARDS = {"quick": 6, "thorough": 12}
 NUMBA_THREADS = {"quick": 2, "thorough": 1}
+REPLAY_IN_RUN = True    # regression inputs are orbit corrections (JIT-heavy): replayed inside shard 1, not in the parent
 RULE = ("(A) cases = generated (residual map, start, tol, max_attempts, max_delta, stepper, Jacobian mode, norm) through "
         "_NewtonBackend.run; non-trivial = >= 2 accepted Newton updates with >= 1 Armijo backtrack (alpha < 1), or a "
         "no-root map on which the backend raised after >= 1 accepted update, or a return whose recomputed norm lies in "
@@ -44,7 +45,7 @@ ASSUMPTIONS = [
     "for maps that return non-finite values or raise outside a ball, any exception type is accepted (the statement only requires 'raises an error'); for finite, everywhere-defined maps the documented ConvergenceError is required",
     "liveness is asserted only for well-conditioned (cond_2 <= 1e3) consistent square affine maps with analytic Jacobian, no step cap, max_attempts >= 3 and tol >= 1024*n*eps*(|A|_inf*max(1,|x*|_inf)+|b|_inf): an exact Newton step must converge (docstring of _solve_delta_dense: J*delta = -r)",
     "the library locates the half-period crossing with its own DOP853 at rtol=atol=1e-12 (poincare/singlehit/backend.py); the closure bound is K*max(tol,1e-12)*|M|_2 and the half-period symmetric-plane bound is tol + K*1e-12*|Phi(T/2)|_2 with K = 100 (<= ~100 accepted steps, each contributing <= the local tolerance amplified by <= |Phi|)",
-    "(B) samples families/amplitudes; amplitudes are log-uniform in [1e-3, 1] relative to gamma (halo amplitude_z is already gamma-normalised by the library), CM-seeded vertical orbits only for Earth-Moon (cost)",
+    "(B) samples families/amplitudes; amplitudes are log-uniform in [1e-3, 0.75] relative to gamma (halo amplitude_z is already gamma-normalised by the library), CM-seeded vertical orbits only for Earth-Moon (cost)",
 ]
 
 EPS = float(np.finfo(float).eps)
@@ -353,10 +354,10 @@ def eval_solver(case, ctx):
             fails.append(("reported-iterations-mismatch", "reported iterations=%r but last on_iteration index was %r" % (out.iterations, be.it[-1][0] if be.it else None)))
         md_it = out.metadata.get("iterations", out.iterations)
         md_rn = out.metadata.get("residual_norm", out.residual_norm)
-        if md_it != out.iterations or md_rn != out.residual_norm:
+        if md_it != out.iterations or not (md_rn == out.residual_norm or (md_rn != md_rn and out.residual_norm != out.residual_norm)):
             fails.append(("metadata-mismatch", "metadata (%r, %r) vs fields (%r, %r)" % (md_it, md_rn, out.iterations, out.residual_norm)))
         last = done[-1]["x_new"] if done else x0
-        if not np.array_equal(xr, last):
+        if not np.array_equal(xr, last, equal_nan=True):
             fails.append(("returned-point-not-last-iterate", "x_corrected differs from the last accepted iterate"))
     # ---- (2) otherwise an error, ConvergenceError for finite everywhere-defined maps
     else:
@@ -469,7 +470,7 @@ def orbit_case(pool, allow_cm):
         fam = draw(st.sampled_from(fams))
         sysname = pool[0] if fam == "vertical_cm" else draw(st.sampled_from(pool))
         return {"sys": sysname, "L": draw(st.sampled_from([1, 2])), "family": fam,
-                "log_amp": draw(st.floats(-3.0, 0.0, allow_nan=False, width=32)),
+                "log_amp": draw(st.floats(-3.0, -0.125, allow_nan=False, width=32)),
                 "tol": draw(st.sampled_from([1e-8, 1e-10, 1e-12, 1e-12])),
                 "order": draw(st.sampled_from([8, 8, 8, 5])),
                 "max_attempts": draw(st.sampled_from([50, 50, 50, 50, 50, 3]))}
@@ -509,7 +510,7 @@ def eval_orbit(case, ctx):
         elif fam == "vertical_amp":
             orbit = L.create_orbit("vertical", amplitude_z=a_rel * gamma)
         else:
-            energy = 0.1 + 0.9 * (float(c["log_amp"]) + 3.0) / 3.0
+            energy = 0.1 + 0.9 * (float(c["log_amp"]) + 3.0) / 2.875
             seed = _cm(c["sys"], int(c["L"])).to_synodic([0.0, 0.0], energy, "q3")
             orbit = L.create_orbit("vertical", initial_state=np.asarray(seed, dtype=float))
         seed_state = np.array(orbit.initial_state, dtype=float, copy=True)
@@ -550,14 +551,21 @@ def eval_orbit(case, ctx):
     if not np.array_equal(np.asarray(res.x_corrected, dtype=float), x0) or abs(2.0 * float(res.half_period) - T) > 4.0 * EPS * T:
         fails.append(("result-vs-orbit-mismatch:" + tag, "result (x=%r, half_period=%r) vs orbit (x=%r, period=%r)" % (
             np.asarray(res.x_corrected).tolist(), res.half_period, x0.tolist(), T)))
-    ok, sts, Ms, nsteps = own.flow_with_stm(mu, x0, [0.5 * T, T])
+    NS = 16
+    ok, sts, Ms, nsteps = own.flow_with_stm(mu, x0, [T * (i + 1) / NS for i in range(NS)])
     if not ok:
         ctx.case(cls="B:%s:own-integration-failed" % where)
         for b, msg in fails:
             ctx.fail(b, case, msg)
         return
-    xh, xT = sts
-    Ph, M = Ms
+    xh, xT = sts[NS // 2 - 1], sts[-1]
+    Ph, M = Ms[NS // 2 - 1], Ms[-1]
+    # Yorke (1969): a non-constant periodic solution of x' = f(x) has period >= 2*pi/Lip(f).  Lip is estimated by
+    # the largest |Df|_2 over 17 points of the orbit; a factor 10 covers the estimate (genuine L1/L2 orbits have
+    # T*Lip ~ 30).  Catches "closed because T ~ 0" (e.g. an event found immediately at the start).
+    lip = max(float(np.linalg.norm(own.field_jacobian(mu, s), 2)) for s in [x0] + sts)
+    if T * lip < 2.0 * math.pi / 10.0:
+        fails.append(("degenerate-period:" + tag, "period %.3e with Lipschitz constant ~%.3e violates T >= 2*pi/L (Yorke): the state is not an equilibrium, so this is not a periodic orbit (x0=%r)" % (T, lip, x0.tolist())))
     nM = float(np.linalg.norm(M, 2))
     nPh = float(np.linalg.norm(Ph, 2))
     closure = float(np.linalg.norm(xT - x0))
@@ -575,7 +583,7 @@ def eval_orbit(case, ctx):
              sample={"harness": "B", "case": case, "period": T, "iterations": int(res.iterations), "closure": closure,
                      "closure_bound": bound_c, "half_plane_residual": d_half, "half_bound": bound_h, "norm_M": nM})
     if closure <= bound_c:
-        _ratios.append(closure / bound_c)
+        _ratios.append((closure / bound_c, d_half / bound_h, case))
     for b, msg in fails:
         ctx.fail(b, case, msg)
 
@@ -588,7 +596,24 @@ def _draw_mu(ctx):
     return "mu:%.6g" % (10.0 ** got[-1])
 
 
+def _replay_regressions(ctx):
+    import json
+    import os
+    from ..runner import ROOT
+    rdir = os.path.join(ROOT, "replays", PROPERTY)
+    n = 0
+    if os.path.isdir(rdir):
+        for fn in sorted(os.listdir(rdir)):
+            if fn.startswith("reg-") and fn.endswith(".json"):
+                with open(os.path.join(rdir, fn)) as f:
+                    replay(ctx, json.load(f)["payload"])
+                n += 1
+    ctx.extra["regression_replays"] = n
+
+
 def run(ctx):
+    if ctx.shard == 1 % ctx.nshards:
+        _replay_regressions(ctx)
     # (A) solver contract
     explore(ctx, "A-solver", solver_case(), eval_solver, ctx.share(ctx.scale(9000, 240000)))
     # (B) end-to-end periodicity
@@ -602,8 +627,12 @@ def run(ctx):
     explore(ctx, "B-orbits", orbit_case(pool, cm_shard), eval_orbit, n_orb, shrink_calls=ctx.scale(12, 40))
     ctx.extra.setdefault("B_systems", [])
     ctx.extra["B_systems"].extend(pool)
-    ctx.extra.setdefault("B_max_closure_over_bound_per_shard", [])
-    ctx.extra["B_max_closure_over_bound_per_shard"].append(max(_ratios) if _ratios else None)
+    ctx.extra.setdefault("B_tightest_margins", [])   # [closure/bound, half-plane residual/bound, case], two per shard
+    seen = set()
+    for r in sorted(_ratios, key=lambda t: -max(t[0], t[1])):
+        if repr(r[2]) not in seen and len(seen) < 2:
+            seen.add(repr(r[2]))
+            ctx.extra["B_tightest_margins"].append([r[0], r[1], r[2]])
 
 
 def replay(ctx, payload):
